@@ -40,14 +40,14 @@ def group(grouped, kind, key, detail):
         g["examples"].append(detail)
 
 
-def replay(ck, states, grouped, feats, behaviours, tier):
+def replay(ck, states, grouped, feats, behaviours, tier, py_every=None, wide_every=7):
     """spec -> code: every done state into the real classes, compiled; interpreted (NUMBA_DISABLE_JIT) as well for
     every second state (quick) / every third state (thorough)"""
     chunk = 250
     for mode in ("jit", "py"):
-        sel = states if mode == "jit" else states[::(2 if tier == "quick" else 3)]
+        sel = states if mode == "jit" else states[::(py_every or (2 if tier == "quick" else 3))]
         chunks = [sel[i: i + chunk] for i in range(0, len(sel), chunk)]
-        res = pool.map_tasks("impl.c14", [{"op": "states", "states": c, "mode": mode, "wide_every": 7 if mode == "jit" else 0} for c in chunks], mode=mode)
+        res = pool.map_tasks("impl.c14", [{"op": "states", "states": c, "mode": mode, "wide_every": wide_every if mode == "jit" else 0} for c in chunks], mode=mode)
         for c, rr in zip(chunks, res):
             if not rr["ok"]:
                 ck.violation("impl-error", {"mode": mode, "error": rr["error"], "tb": rr.get("tb", "")[-800:]},
@@ -114,7 +114,8 @@ def main():
         killed = 0
         for cfg, want in (("Mutant_burn.cfg", "BurnExact"), ("Mutant_canon.cfg", "ShuffleKeepsSummary"),
                           ("Mutant_support.cfg", "SupportGrouping"), ("Mutant_occ.cfg", "OccBounds"),
-                          ("Mutant_inc.cfg", "SameSupportNoIncongruence")):
+                          ("Mutant_inc.cfg", "SameSupportNoIncongruence"),
+                          ("Mutant_theta.cfg", "BelowThresholdChainsIgnored")):
             m = tlc.run(SPEC, "TraceSummary", cfg)
             if not m.violated or want not in m.violated:
                 ck.machinery_failure("mutant spec %s not killed (violated=%s)" % (cfg, m.violated))
@@ -125,8 +126,9 @@ def main():
 
     phase["mutant_specs"] = round(time.time() - t0, 1)
     # ---- 2. model checking + spec -> code, one part of the grid after the other -----------
-    parts = ["MC_quick.cfg"] if tier == "quick" else ["MC_thorough.cfg", "MC_thorough_b.cfg", "MC_thorough_c.cfg",
-                                                       "MC_thorough_d.cfg"]
+    # MC_chains*: three and four chains over menus of genotypes with nested and foreign supports
+    parts = ["MC_quick.cfg", "MC_chains.cfg"] if tier == "quick" else [
+        "MC_thorough.cfg", "MC_thorough_b.cfg", "MC_thorough_c.cfg", "MC_thorough_d.cfg", "MC_chains_thorough.cfg"]
     grouped, feats, behaviours = {}, {}, set()
     n_states = 0
     for cfg in parts:
@@ -152,7 +154,10 @@ def main():
         if not states:
             ck.machinery_failure("TLC printed no states for %s" % cfg)
         n_states += len(states)
-        replay(ck, states, grouped, feats, behaviours, tier)
+        if cfg.startswith("MC_chains"):
+            replay(ck, states, grouped, feats, behaviours, tier, py_every=5, wide_every=31)
+        else:
+            replay(ck, states, grouped, feats, behaviours, tier)
         phase["replay:" + cfg] = round(time.time() - t1, 1)
         ck.sample({"kind": "model-state", "state": states[len(states) // 3]})
         del states
